@@ -11,6 +11,13 @@ func init() {
 }
 
 func vDvCfg(prefix, idBase string, nDocs int) gCfg {
+	if vParam("lite", 0) == 1 {
+		return gCfg{prefix: prefix, idBase: idBase, nDocs: nDocs, wide: -1,
+			fields: []gField{
+				{name: "f", terms: []string{"", "a"}, dv: true, fixFreq: true},
+				{name: "n", terms: []string{"c"}, fixFreq: true, always: true, allTerm: true},
+			}}
+	}
 	return gCfg{prefix: prefix, idBase: idBase, nDocs: nDocs, wide: -1,
 		fields: []gField{
 			{name: "f", terms: []string{"", "a", "é"}, dv: true, fixFreq: true},
